@@ -443,6 +443,7 @@ func (txn *Txn) InsertKey(key string, fn func(Row) error) error {
 		return fmt.Errorf("column: key '%s' already exists at offset %d", key, idx)
 	}
 
+	verifPoint("key.afterCheck", txn.owner, 0)
 	// If not found, insert at a new index
 	idx, err := txn.insert(fn, 0)
 	txn.bufferFor(txn.owner.pk.name).PutString(commit.Put, idx, key)
@@ -459,6 +460,7 @@ func (txn *Txn) UpsertKey(key string, fn func(Row) error) error {
 		return txn.QueryAt(idx, fn)
 	}
 
+	verifPoint("key.afterCheck", txn.owner, 0)
 	// If not found, insert at a new index
 	idx, err := txn.insert(fn, 0)
 	txn.bufferFor(txn.owner.pk.name).PutString(commit.Put, idx, key)
@@ -569,6 +571,7 @@ func (txn *Txn) commitUpdates(chunk commit.Chunk) (updated bool) {
 			continue
 		}
 
+		verifPoint("commit.betweenColumns", txn.owner, uint32(chunk))
 		// Apply the updates on the column itself first. This may result in a modified
 		// buffer caused by merge updates, so we need to range our indexes separately.
 		updated = true
